@@ -33,7 +33,7 @@ ENTRIES = ["rfile", "rmem", "ctor", "crfile", "crmem"]
 AUX_INEXACT = ()
 # damaged header TEXT: cfitsio is lenient in many undocumented ways (mandatory keywords out of place, odd characters ...) that
 # FitsModel does not transcribe: no comparison with the model for these classes; the oracle and the battery still run
-HEADER_DAMAGE = ("byteflip-header", "byteflip-any")
+HEADER_DAMAGE = ("byteflip-header", "byteflip-any", "badcard-legacy", "badcard-legacy-noaux", "badcard-ordern", "badcard-ordern-noaux")
 
 # ------------------------------------------------------------------------------------------------
 # base tables: small, safe (the property's well-formedness holds), exercising orders 0..3, repeated knots, +-0, extents, aux keys
